@@ -8,17 +8,17 @@ open Rx Rx.Gen.Buffer
 def absBufferWithCount (g : BufferWithCountObserver) : St1 := .bufferCount g.count g.buffer.data
 
 theorem tie_BufferWithCount_next (g : BufferWithCountObserver) (v : Val) :
-    (BufferWithCountObserver.next g v).map (fun r => (absBufferWithCount r.1, r.2)) = some (St1.onNext (absBufferWithCount g) v) := by
+    (BufferWithCountObserver.next g v).map (fun r => (absBufferWithCount r.1, r.2)) = some (Rs.lift (St1.onNext (absBufferWithCount g) v)) := by
   rcases g with ⟨⟨o, d⟩, c⟩
   rs_tie [BufferWithCountObserver.next, BufferObserver.next, BufferObserver.emit, absBufferWithCount, St1.onNext]
 
 theorem tie_BufferWithCount_error (g : BufferWithCountObserver) (e : Err) :
-    (BufferWithCountObserver.error g e).map (fun r => r.2) = some (St1.onError' (absBufferWithCount g) e).2 := by
+    (BufferWithCountObserver.error g e).map (fun r => r.2) = some ((St1.onError' (absBufferWithCount g) e).2.map Rs.Ev.n) := by
   rcases g with ⟨⟨o, d⟩, c⟩
   rs_tie [BufferWithCountObserver.error, BufferObserver.error, absBufferWithCount, St1.onError']
 
 theorem tie_BufferWithCount_complete (g : BufferWithCountObserver) :
-    (BufferWithCountObserver.complete g).map (fun r => r.2) = some (St1.onComplete' (absBufferWithCount g)).2 := by
+    (BufferWithCountObserver.complete g).map (fun r => r.2) = some ((St1.onComplete' (absBufferWithCount g)).2.map Rs.Ev.n) := by
   rcases g with ⟨⟨o, d⟩, c⟩
   rs_tie [BufferWithCountObserver.complete, BufferObserver.complete, BufferObserver.emit, absBufferWithCount, St1.onComplete']
 
